@@ -429,10 +429,12 @@ fn gen_outbound(kind: OutKind, ch: &mut Choices) -> Plan {
         let n_ops = 1 + ch.choose(3);
         for _ in 0..n_ops {
             let len = ch.choose(40);
-            let mut w: [u32; 6] = match kind {
-                OutKind::C14 => [10, 30, 60, 5, 5, 5],
-                OutKind::C08 => [25, 25, 10, 10, 10, 5],
-                _ => [10, 50, if qos2_ok { 15 } else { 0 }, 10, 10, 10],
+            let mut w: [u32; 7] = match kind {
+                OutKind::C14 => [10, 30, 60, 5, 5, 5, 0],
+                OutKind::C08 => [25, 25, 10, 10, 10, 5, 0],
+                // C05 / C13: futures created and dropped without a single poll are one more way of cancelling
+                OutKind::C05 | OutKind::C13 => [10, 50, if qos2_ok { 15 } else { 0 }, 10, 10, 10, 9],
+                OutKind::C06 => [10, 50, if qos2_ok { 15 } else { 0 }, 10, 10, 10, 0],
             };
             if role.is_server() {
                 // SUBSCRIBE / UNSUBSCRIBE are client-to-server packets: a server never gets a SUBACK
@@ -448,7 +450,8 @@ fn gen_outbound(kind: OutKind, ch: &mut Choices) -> Plan {
                 }
                 3 => ops.push(AppOp::Subscribe { n: 1 + ch.choose(3) as u8, pid: None }),
                 4 => ops.push(AppOp::Unsubscribe { n: 1 + ch.choose(2) as u8, pid: None }),
-                _ => ops.push(AppOp::Ready),
+                5 => ops.push(AppOp::Ready),
+                _ => ops.push(AppOp::Unpolled { what: ch.choose(3) as u8 }),
             }
         }
         plan.senders.push(ops);
@@ -535,6 +538,28 @@ fn gen_outbound(kind: OutKind, ch: &mut Choices) -> Plan {
             plan.cfg.wr_hw = *ch.pick(&[64usize, 256, 1024]);
             plan.cfg.wr_lw = plan.cfg.wr_hw / 4;
         }
+    }
+    if kind == OutKind::C13 && ch.chance(1, 5) {
+        // motif: back-pressure while the window still has room and nothing is in flight (the write
+        // buffer is filled by QoS 0 publishes during a stall); waiters queue up behind futures that were
+        // dropped, and only the back-pressure-off notification can release them
+        plan.senders.clear();
+        plan.senders.push((0..(2 + ch.choose(3))).map(|_| AppOp::PubQ0 { len: 40 }).collect());
+        for _ in 0..(1 + ch.choose(3)) {
+            plan.senders.push(vec![AppOp::Unpolled { what: ch.choose(3) as u8 }]);
+        }
+        for _ in 0..(1 + ch.choose(2)) {
+            plan.senders.push(vec![match ch.choose(3) {
+                0 => AppOp::Ready,
+                1 => AppOp::PubQ1 { len: 2, pid: None },
+                _ => AppOp::PubQ0 { len: 1 },
+            }]);
+        }
+        plan.faults.p_wr_stall = *ch.pick(&[40u32, 150]);
+        plan.cfg.wr_hw = 64;
+        plan.cfg.wr_lw = 16;
+        plan.p_cancel = *ch.pick(&[0u32, 3]);
+        plan.tags.push("motif:backpressure-free-window".into());
     }
     if kind == OutKind::C08 && ch.chance(1, 3) {
         plan.faults.p_wr_stall = 3;
@@ -1189,6 +1214,11 @@ fn gen_c20(ch: &mut Choices) -> Plan {
     plan.p_hold = if plan.p_immediate == 0 { 500 } else { 0 };
     plan.cfg.disconnect_timeout_s = 1;
     let mode = if role.is_server() { ch.choose(3) } else { 3 };
+    if mode < 2 && ch.chance(1, 3) {
+        // one busy handler makes the service not ready: the dispatcher pauses reading (and its timers)
+        // right after the packet that filled the window, while the peer keeps sending
+        plan.cfg.max_receive = 1;
+    }
     let mut last_ms: u64 = 0;
     match mode {
         0 => {
@@ -1439,14 +1469,22 @@ fn gen_c19(ch: &mut Choices) -> Plan {
                 // inbound maximum packet size (on the Remaining Length, as the codecs count)
                 let mut m = *ch.pick(&[60u32, 200]);
                 plan.cfg.max_size = m;
+                let cfg_m = m;
                 if v5 && ch.chance(1, 2) {
                     // the handshake announces another value: that one is the negotiated limit
-                    let o = *ch.pick(&[50u32, 120]);
+                    // (0: the handshake lifts the configured limit, nothing is announced)
+                    let o = *ch.pick(&[50u32, 120, 0]);
                     plan.cfg.hs_max_packet_size = Some(o);
                     m = o;
                 }
                 plan.tags.push(format!("limit:max-size:{m}"));
-                for (i, target) in [m, m + 1].iter().enumerate() {
+                let targets = if m == 0 {
+                    plan.tags.push("probes-within:2".into());
+                    [cfg_m, cfg_m + 1]
+                } else {
+                    [m, m + 1]
+                };
+                for (i, target) in targets.iter().enumerate() {
                     // payload sized so that the frame's Remaining Length is exactly `target`
                     let mut p = mk_publish(ver, ch, 60 + i as u32, 0, None, 0);
                     p.props.clear();
@@ -1485,15 +1523,20 @@ fn gen_c19(ch: &mut Choices) -> Plan {
             }
             3 => {
                 // topic alias maximum: configured or overridden
-                let a = 1 + ch.choose(3) as u16;
+                let mut a = 1 + ch.choose(3) as u16;
                 if ch.chance(1, 2) {
                     plan.cfg.max_topic_alias = a;
                 } else {
                     plan.cfg.max_topic_alias = 8;
+                    // (0: the handshake switches topic aliases off)
+                    a = ch.choose(4) as u16;
                     plan.cfg.hs_topic_alias_max = Some(a);
                 }
                 plan.tags.push(format!("limit:alias:{a}"));
-                for (i, al) in [a, a + 1].iter().enumerate() {
+                if a == 0 {
+                    plan.tags.push("probes-within:0".into());
+                }
+                for (i, al) in [a, a + 1].iter().enumerate().skip(usize::from(a == 0)) {
                     let mut p = mk_publish(ver, ch, 80 + i as u32, 0, None, 2);
                     p.props.retain(|(id, _)| *id != 35);
                     p.props.push((35, PropVal::U16(*al)));
